@@ -322,6 +322,16 @@ Definition read_current (E : env) (st : store) (a : api) (o : opts) : result :=
                            else []
                 end |}.
 
+(* ---------------------------------------------------------------- the batched reader's row-count guard
+   A parquet file is a sequence of row groups.  ParquetFile.iter_batches hands out, for each group, a PREFIX of
+   its rows (all of them; fewer when a damaged footer count makes it stop early -- without an error).  The
+   generator APIs then compare the number of rows handed out with the footer's file-level count
+   (GenRead.batch_guard_is_file_level_count) and raise when they differ. *)
+Definition guarded_batches (declared : nat) (handed : list (list row)) : res (list row) :=
+  if Nat.eqb (List.length (List.concat handed)) declared then Ok (List.concat handed) else Err EParse.
+
+Definition prefix_of (a b : list row) : Prop := exists c, b = a ++ c.
+
 (* ---------------------------------------------------------------- what a manifest-list entry carries
    A manifest-list record has many fields; the reader uses ONE of them, manifest_path (ManifestFile.content,
    manifest_length, partition_spec_id, the snapshot id and the three counts carry no read meaning: the library
